@@ -20,8 +20,9 @@ Unl == 0 - 1      \* "unlimited" in limit records
 DocStartBefore(raw, i) == LET S == {j \in 1..i : raw[j].k = "DS"} IN IF S = {} THEN 1 ELSE CHOOSE j \in S : \A k \in S : k <= j
 DefinedInDoc(raw, id, i) == \E j \in DocStartBefore(raw, i)..(i - 1) : raw[j].k \in {"S", "SS", "MS"} /\ raw[j].a = id
 DefIdx(raw, id, i) == CHOOSE j \in DocStartBefore(raw, i)..(i - 1) : raw[j].k \in {"S", "SS", "MS"} /\ raw[j].a = id
-Mark(e) == [k |-> e.k, a |-> 0, v |-> e.v, q |-> e.q, t |-> "", n |-> e.n, r |-> TRUE]
-Plain(e) == [k |-> e.k, a |-> e.a, v |-> e.v, q |-> e.q, t |-> e.t, n |-> e.n, r |-> FALSE]
+NOf(e) == IF "n" \in DOMAIN e THEN e.n ELSE 0
+Mark(e) == [k |-> e.k, a |-> 0, v |-> e.v, q |-> e.q, t |-> "", n |-> NOf(e), r |-> TRUE]
+Plain(e) == [k |-> e.k, a |-> e.a, v |-> e.v, q |-> e.q, t |-> e.t, n |-> NOf(e), r |-> FALSE]
 (* alias-free expansion of raw[lo..hi] with every event marked as replayed *)
 RECURSIVE ReplayOf(_, _, _)
 ReplayOf(raw, lo, hi) ==
